@@ -51,8 +51,8 @@ CFG['drop_trait_impls'] = [r'^RandomizedCiphersuite$']       # frost-rerandomize
 CFG['elide_body'] = [r' :: Field for Secp256K1ScalarField :: ', r' :: Group for Secp256K1Group :: ', r' :: hash_to_array$', r' :: hash_to_scalar$',
                      r' :: Ciphersuite for Secp256K1Sha256TR :: (H1|H3|H4|H5|HDKG|HID)$']
 CFG['contract_dirs'] = CFG['contract_dirs'] + [os.path.join(VERIF, 'contracts_tr')]
-CFG['prelude_files'] = CFG['prelude_files'] + ['prelude/k256_model.rs', 'lemmas/vspec_tr.rs', 'lemmas/vworld_tr.rs']
-CFG['prelude_modules'] = dict(CFG['prelude_modules'], k256_model=None, vspec_tr=None, vworld_tr=None)
+CFG['prelude_files'] = CFG['prelude_files'] + ['prelude/k256_model.rs', 'lemmas/vspec_w.rs', 'lemmas/vspec_tr.rs', 'lemmas/vworld_tr.rs']
+CFG['prelude_modules'] = dict(CFG['prelude_modules'], k256_model=None, vspec_w=None, vspec_tr=None, vworld_tr=None)
 CFG['postlude_files'] = []
 # frost-secp256k1-tr depends on frost-rerandomized, which enables frost-core's `internals` feature (cargo unifies features): the
 # `#[cfg(feature = "internals")]` constructors (Signature::new, GroupCommitment::from_element, BindingFactorList::new) exist in this build
@@ -73,7 +73,7 @@ CFG['strip_clauses'] = {
     K + 'lib.rs :: aggregate_custom': ['exact', 'released_signatures_verify'],
     K + 'lib.rs :: aggregate': ['as_first_cheater'],
     K + 'lib.rs :: detect_cheater': ['challenge_error', 'none', 'first', 'all'],
-    K + 'lib.rs :: verify_signature_share': ['session_error', 'valid', 'invalid'],
+    K + 'lib.rs :: verify_signature_share': '*',      # no world-generic block yet (one-entry BTreeMaps built inside): emitted WITHOUT contract, callers learn nothing
     K + 'lib.rs :: verify_signature_share_precomputed': ['valid', 'invalid'],
     K + 'round2.rs :: sign': ['value'],
     K + 'traits.rs :: Ciphersuite :: verify_signature': ['rfc'],
